@@ -74,6 +74,11 @@ Definition MINYEAR : Z := 1.
 Definition MAXYEAR : Z := 9999.
 Definition max_ordinal : Z := 3652059.
 
+(* datetime.date(y, m, d) is accepted (no ValueError) *)
+Definition date_ok (y m d : Z) : bool := valid_ymdb y m d && (y <=? MAXYEAR).
+(* datetime.date.fromordinal(n) is accepted *)
+Definition ord_ok (n : Z) : bool := (1 <=? n) && (n <=? max_ordinal).
+
 (* lexicographic order on (y, m, d) *)
 Definition ymd_lt (a b : Z * Z * Z) : Prop :=
   let '(y1, m1, d1) := a in let '(y2, m2, d2) := b in
